@@ -158,7 +158,15 @@ def rich_case(full):
     def h(ctx):
         colors = list(M.Color)
         if full:
-            pick_ = lambda name, n: ctx.choice(name, n)
+            # (every combination of the fields, except that the two text-like collections vary together: 15 552 combinations)
+            memo = {}
+
+            def pick_(name, n):
+                name = "names" if name == "numbers" else name
+                if name not in memo:
+                    memo[name] = ctx.choice(name, n)
+                return memo[name]
+
         else:
             # quick: 8 profiles that together take every value of every field at least once
             prof = ctx.choice("profile", 8)
@@ -377,7 +385,7 @@ def cases(tier, seed):
                     if tier != "quick":
                         nm += "|deep" if n == 3 else "|wide"
                     cs.append(Case(nm + "|n=%d" % n, graph_case(n, with_vecs, fixed, nseq), key=nm, validate=0, timeout=900 if tier == "quick" else 3000, max_paths=300000))
-    cs.append(Case("persist rich scalars", rich_case(tier != "quick"), validate=0, timeout=900 if tier == "quick" else 3000))
+    cs.append(Case("persist rich scalars", rich_case(tier != "quick"), validate=0, timeout=900 if tier == "quick" else 3000, max_paths=40000))
     cs.append(Case("persist an alternatively mapped subclass behind base-typed fields", drawing_case(), key="drawing", validate=0, timeout=900))
     cs.append(Case("persist an alternatively mapped container and its subclasses inside a holder", bag_case(), key="bag", validate=0, timeout=900))
     cs.append(Case("persist mutual one-to-one references that are not annotated Optional", car_case(), key="car", validate=0, timeout=900))
